@@ -62,11 +62,15 @@ Clauses(r) ==
            << Cl("on-lattice", OnLattice2(r.out)),
               Cl("matrix-is-columnwise-operator", IsMatrix(r.m, Cardinality(u)) /\ r.out = ExpectedMatrix(r)) >>
       [] r.api = "whole_frame" ->
-           \* Kernel2D.convolved_array_from on the unmasked frame; ..._with_mask_from read on mask u
+           \* Kernel2D.convolved_array_from on the unmasked frame; ..._with_mask_from read on mask u; outc is
+           \* Convolver(mask u, the same kernel object).convolve_image of the same native image.  The kernel object may
+           \* have a history (r.history: derived by arithmetic from a kernel that was already used); its values are r.k.
            LET wf == WholeFrame(r.img, r.k, r.h, r.w, r.kh, r.kw)
-           IN << Cl("on-lattice", OnLattice1(r.out) /\ OnLattice1(r.outm)),
+           IN << Cl("on-lattice", OnLattice1(r.out) /\ OnLattice1(r.outm) /\ OnLattice1(r.outc)),
                  Cl("whole-frame-convolution", r.out = wf),
-                 Cl("whole-frame-with-mask", r.outm = GatherOn(wf, SlimSeq(u, r.h, r.w), r.w)) >>
+                 Cl("whole-frame-with-mask", r.outm = GatherOn(wf, SlimSeq(u, r.h, r.w), r.w)),
+                 Cl("convolver-of-same-kernel", r.outc = MaskedBlurOfNative(u, r.k, r.h, r.w, r.kh, r.kw, r.img)),
+                 Cl("whole-frame-agrees-with-convolver-on-mask", r.outm = r.outc) >>
       [] r.api = "simfit" ->
            \* SimulatorImaging (noise off) -> apply_mask -> convolver with the generating image
            << Cl("on-lattice", OnLattice1(r.data) /\ OnLattice1(r.model)),
@@ -101,6 +105,7 @@ Sig(r) ==
          ELSE "convolve_mapping_matrix"
     ELSE IF r.api = "even" THEN "even_kernel"
     ELSE IF r.err # "" THEN r.api \o ":raised"
+    ELSE IF r.api \in {"whole_frame", "simfit"} /\ r.history # "fresh" THEN r.api \o ":derived-kernel"
     ELSE r.api
 
 Failed(r) == SelectSeq(Clauses(r), LAMBDA c : ~ c.ok)
